@@ -33,6 +33,14 @@ def toNRGBA8 (c : Px) : Px :=
   else if c.a == 0 then ⟨0, 0, 0, 0⟩
   else ⟨((c.r * 0xffff) / c.a / 256) % 256, ((c.g * 0xffff) / c.a / 256) % 256, ((c.b * 0xffff) / c.a / 256) % 256, c.a / 256⟩
 
+/-- `(*image.NRGBA).SetRGBA64` — what `draw.Draw(…, draw.Src)` stores into an `*image.NRGBA` destination (its generic path
+goes through `RGBA64Image`): the colour is un-premultiplied unless alpha is 0 or 0xffff, and *kept* (not zeroed) when alpha is 0.
+On every valid premultiplied colour (`r, g, b ≤ a`) this is `toNRGBA8`; on stored pixels with alpha 0 and a non-zero
+colour the two standard-library paths differ. -/
+def toNRGBA8Draw (c : Px) : Px :=
+  if c.a == 0xffff || c.a == 0 then ⟨c.r / 256 % 256, c.g / 256 % 256, c.b / 256 % 256, c.a / 256⟩
+  else ⟨((c.r * 0xffff) / c.a / 256) % 256, ((c.g * 0xffff) / c.a / 256) % 256, ((c.b * 0xffff) / c.a / 256) % 256, c.a / 256⟩
+
 /-- `color.NRGBA64Model.Convert` of a 16-bit premultiplied colour -/
 def toNRGBA16 (c : Px) : Px :=
   if c.a == 0xffff then c
